@@ -174,7 +174,20 @@ class World:
             data += surplus
             peer.tainted = peer.tainted or f"surplus bytes after response r{n}"
             surplus = b""
-        peer.send(data)
+        interim = ps.get("interim")
+        if interim and not head.startswith(b"HEAD "):
+            # interim responses (100 Continue, 102 Processing, 103 Early Hints) come before the final one, in the same segment
+            # or some time ahead of it: they are not the answer
+            pre = b"".join(f"HTTP/1.1 {c} Interim\r\nX-Interim: {c}\r\n\r\n".encode() for c in interim["codes"])
+            if interim["when"] == "same":
+                data = pre + data
+            else:
+                peer.send(pre)
+                final = data
+                self.loop.call_later(interim["when"], lambda: (not peer.transport.closing) and peer.send(final))
+                data = b""
+        if data:
+            peer.send(data)
         if surplus:
             def later() -> None:
                 # only while no other request may already have been handed to this connection (sound domain)
@@ -403,6 +416,8 @@ def body(rec: Rec, case: dict) -> None:
                 labels.append("proxy")
             if op.get("tls") and op.get("tlscfg"):
                 labels.append("tls-setting")
+            if ps.get("interim"):
+                labels.append("interim:" + str(ps["interim"]["when"]))
         elif op["op"] == "unsolicited":
             labels.append("unsolicited")
     rec.case(case, nt, sorted(set(labels)))
@@ -434,6 +449,8 @@ def cases(draw, narrow: bool):
             "later_ms": st.integers(0, 3),
             "truncate": st.sampled_from([None, None, None, 0, 3]),
             "close_after": st.sampled_from([False, False, False, True]),
+            "interim": st.sampled_from([None, None, None, None, {"codes": [103], "when": "same"}, {"codes": [102], "when": 0.01}, {"codes": [103, 103], "when": 0.5},
+                                        {"codes": [100], "when": 0.01}]),
         }),
     })
     uns = st.fixed_dictionaries({"op": st.just("unsolicited"), "conn": st.integers(0, 3), "kind": st.sampled_from(["response", "two_responses", "partial", "garbage"]),
@@ -467,6 +484,11 @@ def cases(draw, narrow: bool):
                 o["head"] = False
             if ps["framing"] == "chunked" and ps.get("announce_close") == "http10":
                 ps["announce_close"] = None  # no chunked coding in HTTP/1.0
+            if o.get("expect"):
+                ps["interim"] = None  # (a real 100 Continue would make the client send the body the scripted peer does not read)
+            if ps.get("interim") and (ps["truncate"] is not None or ps["framing"] == "eof" or ps["close_after"] or ps["surplus"] or ps.get("bad_coding")
+                                      or ps["status"] in (204, 304)):
+                ps["interim"] = None
             if ps.get("bad_coding"):
                 ps["surplus"] = None
                 ps["truncate"] = None
